@@ -62,6 +62,10 @@ pub trait Decoder {
         encoded: IN,
         ignore: Option<&[u8]>,
     ) -> Result<Vec<u8>, Error> {
+        // VERIF (E-B64): under cfg(kani) the token model may return more bytes than a short token is long
+        #[cfg(kani)]
+        let mut bin = vec![0u8; core::cmp::max(encoded.as_ref().len(), 90)];
+        #[cfg(not(kani))]
         let mut bin = vec![0u8; encoded.as_ref().len()];
         let bin_len = Self::decode(&mut bin, encoded, ignore)?.len();
         bin.truncate(bin_len);
